@@ -220,6 +220,8 @@ def files(draw, cfg=None):
     names = set()
     for k in range(n):
         d = draw(single(scfg))
+        if cfg.get("expr_bounds") and draw(st.integers(0, 99)) < cfg.get("p_expr_bounds", 60):
+            decorate_bounds(draw, d, cfg)
         while d["name"].lower() in names:
             d["name"] = d["name"] + "_" + "bcd"[k % 3]
         names.add(d["name"].lower())
@@ -260,14 +262,17 @@ def _interfaces(draw, k, schemas, prone, tags, cfg):
         return
     srcs = draw(st.lists(st.sampled_from(others), min_size=n_src, max_size=n_src, unique=True))
     scope = scope_identifiers(d)
-    used = all_identifiers(d)
+    used = set()
+    for x in schemas:
+        used |= all_identifiers(x)      # names added here must be new in every schema (they meet through inheritance)
     for j in srcs:
         src = schemas[j]
         ssch = _LooseSchema(src)
         # importable: declarations of src whose kind can be determined inside src (not depending on src's own imports)
         cands = []
         for t in src["types"]:
-            if t.get("foreign"):
+            if t.get("foreign") or _expr_bound(t.get("of")):
+                # (a type whose bounds name CONSTANTs/FUNCTIONs of its schema is rejected by libexpress when imported)
                 continue
             cands.append(t["name"])
         for e in src["entities"]:
@@ -336,6 +341,14 @@ def _interfaces(draw, k, schemas, prone, tags, cfg):
                 nm2 = _fresh(draw, used, [local], "fr")
                 scope.add(nm2)
                 d["types"].append({"name": nm2, "kind": "defined", "of": named(local), "foreign": True})
+
+
+def _expr_bound(tr):
+    while tr is not None and tr.get("k") == "agg":
+        if isinstance(tr["hi"], str):
+            return True
+        tr = tr["of"]
+    return False
 
 
 def _new_entity(draw, d, used, scope, supers):
@@ -436,11 +449,116 @@ def rename_identifiers(d, f):
     return d
 
 
+# ------------------------------------------------------------------------------------------------------------------
+# aggregate bounds that are not integer literals (C12: these reach run-time dependent paths of the generators)
+
+def decorate_bounds(draw, d, cfg):
+    """Replace upper bounds of some aggregates of d by a CONSTANT, an arithmetic expression, a function call or an
+    attribute of the entity (forms of test/unitary_schemas/array_bounds_expr.exp); adds d["prelude"] (CONSTANT block) and
+    d["postlude"] (FUNCTION).  Upper bounds only: exprender prints the lower bound with %d.  Mutates and returns d."""
+    used = all_identifiers(d)
+    consts = []      # (name, expr text)
+    kinds = set()
+    need_func = [False]
+    fname = [None]
+
+    def const(value):
+        n = _fresh(draw, used, [], "cmax")
+        if consts and draw(st.integers(0, 9)) < 3:
+            base = draw(st.sampled_from(consts))[0]
+            consts.append((n, "%s + %d" % (base, draw(st.integers(0, 3)))))
+            kinds.add("bound:constant-defined-by-expression")
+        else:
+            consts.append((n, str(value)))
+        return n
+
+    def new_hi(tr, ent, depth=0):
+        lo = tr["lo"]
+        # SELF\\e.a is accepted by the parser in the bounds of an outermost ARRAY only (libexpress resolves other bounds eagerly and fails)
+        forms = ["const", "const", "arith", "funcall"] + (["attr", "attr"] if ent is not None else []) + \
+                (["selfattr", "selfattr"] if ent is not None and tr["agg"] == "ARRAY" and depth == 0 else [])
+        form = draw(st.sampled_from(cfg.get("bound_forms", forms)))
+        if form not in forms:
+            form = "const"
+        v = max(lo, 0) + draw(st.integers(1, 6))
+        if form == "const":
+            kinds.add("bound:constant")
+            return const(v)
+        if form == "arith":
+            kinds.add("bound:arithmetic-expression")
+            if consts and draw(st.booleans()):
+                return "%s %s %d" % (draw(st.sampled_from(consts))[0], draw(st.sampled_from(["+", "*"])), draw(st.integers(1, 3)))
+            return "%d + %d" % (v, draw(st.integers(0, 4)))
+        if form == "funcall":
+            kinds.add("bound:function-call")
+            need_func[0] = True
+            if fname[0] is None:
+                fname[0] = _fresh(draw, used, [], "fbound")
+            return "%s(%d)" % (fname[0], v)
+        # attribute of the entity
+        ints = [a for a in ent["attrs"] if a["type"]["k"] == "INTEGER" and not a.get("redecl") and not a["optional"]]
+        if ints:
+            a = draw(st.sampled_from(ints))
+        else:
+            a = {"name": _fresh(draw, used, [], "nb"), "type": T("INTEGER"), "optional": False, "redecl": None}
+            ent["attrs"].insert(0, a)
+        if form == "selfattr":
+            kinds.add("bound:SELF\\entity.attribute")
+            return "SELF\\%s.%s" % (ent["name"].lower(), a["name"].lower())
+        kinds.add("bound:attribute")
+        return a["name"].lower()
+
+    def visit(tr, ent, depth=0):
+        if tr["k"] != "agg":
+            return
+        if draw(st.integers(0, 99)) < cfg.get("p_bound_expr", 40):
+            tr["hi"] = new_hi(tr, ent, depth)
+        visit(tr["of"], ent, depth + 1)
+    for t in d["types"]:
+        if t["kind"] == "defined":
+            visit(t["of"], None)
+    for e in d["entities"]:
+        for a in list(e["attrs"]):
+            visit(a["type"], e)
+    if not kinds and cfg.get("force_bound_expr", True) and d["entities"]:
+        e = d["entities"][0]
+        tr = agg("LIST", T("REAL"), 1, None)
+        tr["hi"] = new_hi(tr, e)
+        e["attrs"].append({"name": _fresh(draw, used, [], "xb"), "type": tr, "optional": False, "redecl": None})
+    if d["entities"] and draw(st.integers(0, 99)) < cfg.get("p_selfattr_array", 25):
+        e = draw(st.sampled_from(d["entities"]))
+        tr = agg("ARRAY", T("INTEGER"), 1, None)
+        ints = [a for a in e["attrs"] if a["type"]["k"] == "INTEGER" and not a.get("redecl") and not a["optional"]]
+        if not ints:
+            ints = [{"name": _fresh(draw, used, [], "nb"), "type": T("INTEGER"), "optional": False, "redecl": None}]
+            e["attrs"].insert(0, ints[0])
+        tr["hi"] = "SELF\\%s.%s" % (e["name"].lower(), ints[0]["name"].lower())
+        kinds.add("bound:SELF\\entity.attribute")
+        e["attrs"].append({"name": _fresh(draw, used, [], "xb"), "type": tr, "optional": False, "redecl": None})
+    pre = ""
+    if consts:
+        pre = "CONSTANT\n" + "\n".join("  %s : INTEGER := %s;" % c for c in consts) + "\nEND_CONSTANT;\n"
+    if need_func[0]:
+        # declared before its first use: libexpress resolves bounds of TYPEs in declaration order
+        pre += "\nFUNCTION %s(x : INTEGER) : INTEGER;\n  RETURN (x + 1);\nEND_FUNCTION;\n" % fname[0]
+    if pre:
+        d["prelude"] = pre
+    d.setdefault("tags", {})["bounds"] = sorted(kinds)
+    return d
+
+
 def render_schema(d):
     text = exprender.schema(d)
-    if not d.get("interfaces"):
+    if not (d.get("interfaces") or d.get("prelude") or d.get("postlude")):
         return text
     lines = text.split("\n")
+    if d.get("postlude"):
+        k = max(i for i, l in enumerate(lines) if l.startswith("END_SCHEMA;"))
+        lines = lines[:k] + d["postlude"].split("\n") + lines[k:]
+    if d.get("prelude"):
+        lines = lines[:1] + [""] + d["prelude"].split("\n") + lines[1:]
+    if not d.get("interfaces"):
+        return "\n".join(lines)
     ins = []
     for i in d["interfaces"]:
         s = "%s FROM %s" % (i["kind"], i["from"])
@@ -515,7 +633,7 @@ if __name__ == "__main__":
     import farm
     seed = int(sys.argv[1]) if len(sys.argv) > 1 else 1
     n = int(sys.argv[2]) if len(sys.argv) > 2 else 100
-    cfg = {"kw_py": True} if len(sys.argv) > 3 else {}
+    cfg = {"kw_py": True, "expr_bounds": True} if len(sys.argv) > 3 else {}
     from hypothesis import given, settings, seed as hseed, Phase, HealthCheck
     out = []
 
@@ -538,6 +656,8 @@ if __name__ == "__main__":
             cls[t] += 1
         for d in f["schemas"]:
             for c in type_classes(d):
+                cls[c] += 1
+            for c in d.get("tags", {}).get("bounds", []):
                 cls[c] += 1
         if rc != 0:
             bad += 1
